@@ -534,3 +534,211 @@ def desugar_range_inclusive(toks, log):
         out.append(t)
         k += 1
     return relex(out)
+
+
+def split_or_arms(toks, log):
+    """R25: a match arm `P1 | P2 | .. [if G] => BODY` becomes the arms `P1 [if G] => BODY, P2 [if G] => BODY, ..`
+    (same order, same body text). Verus rejects or-patterns that bind by mutable reference."""
+    toks = list(toks)
+    changed = True
+    while changed:
+        changed = False
+        n = len(toks)
+        for a in range(n - 1):
+            if not (_is(toks[a], 'punct', '=') and _is(toks[a + 1], 'punct', '>') and toks[a + 1].pos == toks[a].pos + 1):
+                continue
+            # pattern start: walk back over balanced groups
+            j = _prev_sig(toks, a)
+            start = None
+            while j is not None and j >= 0:
+                t = toks[j]
+                if t.kind == 'punct' and t.text in ')]}':
+                    # find matching opener
+                    d = 0
+                    q = j
+                    while q >= 0:
+                        u = toks[q]
+                        if u.kind == 'punct' and u.text in ')]}':
+                            d += 1
+                        elif u.kind == 'punct' and u.text in '([{':
+                            d -= 1
+                            if d == 0:
+                                break
+                        q -= 1
+                    if t.text == '}':
+                        b = _prev_sig(toks, q)
+                        if b is None or not (toks[b].kind == 'ident' and toks[b].text not in ('match', 'else')) \
+                                or (toks[b].kind == 'ident' and _is_block_head(toks, b)):
+                            start = j + 1
+                            break
+                    j = _prev_sig(toks, q)
+                    continue
+                if t.kind == 'punct' and t.text in ',{':
+                    start = j + 1
+                    break
+                j = _prev_sig(toks, j)
+            if start is None:
+                continue
+            pat = toks[start:a]
+            # top-level `|` positions and `if` guard
+            d = 0
+            bars = []
+            guard = None
+            for idx, t in enumerate(pat):
+                if t.kind == 'punct' and t.text in '([{':
+                    d += 1
+                elif t.kind == 'punct' and t.text in ')]}':
+                    d -= 1
+                elif d == 0 and t.kind == 'punct' and t.text == '|':
+                    bars.append(idx)
+                elif d == 0 and t.kind == 'ident' and t.text == 'if' and guard is None:
+                    guard = idx
+            bars = [b for b in bars if guard is None or b < guard]
+            if not bars:
+                continue
+            gtxt = text(pat[guard:]) if guard is not None else ''
+            pend = guard if guard is not None else len(pat)
+            alts = []
+            prev = 0
+            for b in bars + [pend]:
+                alts.append(text(pat[prev:b]).strip())
+                prev = b + 1
+            # body
+            s = _next_sig(toks, a + 1)
+            e = stmt_end(toks, s)
+            if _is(toks[s], 'punct', '{'):
+                e = match_close(toks, s)
+            body = text(toks[s:e + 1])
+            if body.rstrip().endswith(','):
+                body = body.rstrip()[:-1]
+                had_comma = True
+            else:
+                had_comma = False
+                nx = _next_sig(toks, e)
+                if nx is not None and nx < n and _is(toks[nx], 'punct', ','):
+                    e = nx
+            new = ''.join('\n%s %s=> %s,' % (alt, (gtxt.strip() + ' ') if gtxt else '', body) for alt in alts)
+            log.append(('R25', 'or-pattern arm split into %d arms: %s' % (len(alts), ' | '.join(alts)[:80]), toks[start].line if start < n else 0))
+            toks = toks[:start] + [Tok('subst', new, toks[a].pos, toks[a].line)] + toks[e + 1:]
+            toks = relex(toks)
+            changed = True
+            break
+    return toks
+
+
+def _is_block_head(toks, b):
+    return False
+
+
+def wrap_arm_bodies(toks, log):
+    """R26: a match arm `PAT => EXPR,` whose body is not a block becomes `PAT => { EXPR },` so that proof
+    statements can be placed in front of EXPR."""
+    toks = list(toks)
+    a = 0
+    while a < len(toks) - 1:
+        if _is(toks[a], 'punct', '=') and _is(toks[a + 1], 'punct', '>') and toks[a + 1].pos == toks[a].pos + 1 \
+                and toks[a].kind != 'subst':
+            s = _next_sig(toks, a + 1)
+            if s is not None and not _is(toks[s], 'punct', '{'):
+                # end of the arm expression: `,` at depth 0 or the token before the closing `}` of the match
+                d = 0
+                e = s
+                end = None
+                while e < len(toks):
+                    t = toks[e]
+                    if t.kind == 'punct' and t.text in '([{':
+                        d += 1
+                    elif t.kind == 'punct' and t.text in ')]}':
+                        if d == 0:
+                            end = _prev_sig(toks, e)
+                            break
+                        d -= 1
+                    elif t.kind == 'punct' and t.text == ',' and d == 0:
+                        end = _prev_sig(toks, e)
+                        break
+                    e += 1
+                if end is not None and end >= s:
+                    log.append(('R26', 'match arm body wrapped in a block', toks[s].line))
+                    toks = toks[:s] + [Tok('punct', '{', toks[s].pos, toks[s].line), Tok('ws', ' ', toks[s].pos, toks[s].line)] + toks[s:end + 1] \
+                        + [Tok('ws', ' ', toks[end].pos, toks[end].line), Tok('punct', '}', toks[end].pos, toks[end].line)] + toks[end + 1:]
+                    a = s + 2
+                    continue
+        a += 1
+    return toks
+
+
+def desugar_qmark(toks, log):
+    """R27: `EXPR?` -> `(match EXPR { Ok(__v) => __v, Err(__e) => return Err(__e.err_into()) })`
+    which is the definition of `?` on Result with `From::from` spelled `err_into` (the unit lists the
+    From impls of the error types as `ErrInto` impls; Verus gives `?` no From specification).
+    EXPR is the maximal postfix chain ending at `?` (paths, field accesses, method/function calls, indexing,
+    parenthesised heads)."""
+    toks = list(toks)
+    while True:
+        qi = None
+        for k, t in enumerate(toks):
+            if _is(t, 'punct', '?'):
+                qi = k
+                break
+        if qi is None:
+            return toks
+        j = _prev_sig(toks, qi)
+        start = None
+        while j is not None and j >= 0:
+            t = toks[j]
+            if t.kind == 'punct' and t.text in ')]':
+                d = 0
+                q = j
+                while q >= 0:
+                    u = toks[q]
+                    if u.kind == 'punct' and u.text in ')]}':
+                        d += 1
+                    elif u.kind == 'punct' and u.text in '([{':
+                        d -= 1
+                        if d == 0:
+                            break
+                    q -= 1
+                p = _prev_sig(toks, q)
+                if p is not None and (toks[p].kind == 'ident' and toks[p].text not in ('return', 'match', 'if', 'in', 'let', 'else', 'while')):
+                    j = p
+                    continue
+                if p is not None and _is(toks[p], 'punct', '>') and t.text == ')':
+                    # turbofish  name::<..>( .. )
+                    d = 0
+                    q2 = p
+                    while q2 >= 0:
+                        u = toks[q2]
+                        if _is(u, 'punct', '>') and not _is(toks[q2 - 1], 'punct', '-'):
+                            d += 1
+                        elif _is(u, 'punct', '<'):
+                            d -= 1
+                            if d == 0:
+                                break
+                        q2 -= 1
+                    p2 = _prev_sig(toks, q2)          # second ':' of '::'
+                    p3 = _prev_sig(toks, p2)
+                    j = _prev_sig(toks, p3)
+                    continue
+                if p is not None and _is(toks[p], 'punct', '?'):
+                    raise LostAnchor('nested `?` operand')
+                start = q
+                break
+            if t.kind in ('ident', 'num', 'str', 'char'):
+                p = _prev_sig(toks, j)
+                if p is not None and _is(toks[p], 'punct', '.') and not _is(toks[_prev_sig(toks, p)], 'punct', '.'):
+                    j = _prev_sig(toks, p)
+                    continue
+                if p is not None and _is(toks[p], 'punct', ':') and _is(toks[_prev_sig(toks, p)], 'punct', ':'):
+                    j = _prev_sig(toks, _prev_sig(toks, p))
+                    continue
+                start = j
+                break
+            raise LostAnchor('cannot delimit the operand of `?` at line %d' % toks[qi].line)
+        if start is None:
+            raise LostAnchor('cannot delimit the operand of `?` at line %d' % toks[qi].line)
+        operand = text(toks[start:qi])
+        new = '(match %s { Ok(__v) => __v, Err(__e) => return Err(__e.err_into()) })' % operand.strip()
+        log.append(('R27', '`?` written out as match + err_into: %s' % re.sub(r'\s+', ' ', operand.strip())[:70], toks[qi].line))
+        toks = toks[:start] + [Tok('subst', new, toks[start].pos, toks[start].line)] + toks[qi + 1:]
+        # note: do not relex here (a relexed `?` cannot appear: the replacement has none)
+        toks = relex(toks)
